@@ -669,7 +669,7 @@ enum Family {
     Clean,
     Update,          // updates, no two open transactions writing the same row     (updateKeepsInserterXmin)
     ConcurrentWrite, // two open transactions write the same row                   (writeSetNeverRecorded, deleteMarkSingleSlot)
-    PartialFail,     // statement failing after its first row inside a session     (stmtNotAtomicInSession)
+    PartialFail,     // statement failing after its first row inside a session     (clean since fix 64fa97f)
     Reinsert,        // deleted unique key inserted again                          (region: index entry replaced)
 }
 
@@ -1008,9 +1008,8 @@ fn finish(line: String, fam: Family, extra: &[&str]) -> Case {
     } else if tags.iter().any(|t| t == "update") {
         kf.push("kf:update");
     }
-    if tags.iter().any(|t| t == "failed_stmt_partial") {
-        kf.push("kf:failed_stmt_partial");
-    }
+    // `failed_stmt_partial` (a statement failing after its first row inside a session) is clean since fix 64fa97f:
+    // the statement takes back what it wrote
     if tags.iter().any(|t| t == "reinsert_deleted_unique_key") {
         kf.push("kf:reinsert_deleted_unique_key");
     }
@@ -1198,6 +1197,11 @@ fn gen_c03(rng: &mut Rng, out: &mut Vec<Case>) {
                 if i == fp {
                     let f = if late { rng.pick(&fails_late).clone() } else { rng.pick(&fails_first).clone() };
                     ops.push(format!("s1 {}", f));
+                    if late && rng.chance(1, 2) {
+                        // another transaction takes a key the failed statement had inserted before it failed: the key
+                        // must not have stayed in s1's write set (s1's commit is not refused because of it)
+                        ops.push("s3 begin ; s3 ins u 71 55 ; s3 commit".into());
+                    }
                 } else {
                     ops.push(format!("s1 {}", ok_stmts(rng, &mut ctr)));
                 }
@@ -1395,10 +1399,21 @@ fn gen_c07(rng: &mut Rng, out: &mut Vec<Case>) {
                     next_key += 1;
                     let e1 = gen_end(rng);
                     let e2 = gen_end(rng);
-                    ops.push(format!(
-                        "s1 begin ; s2 begin ; s1 ins u {} ; s2 ins u {} ; s1 {} ; db sel u ; s2 {} ; db sel u",
-                        c07_row(&sc, k), c07_row(&sc, k), e1, e2
-                    ));
+                    if !sc.multi && !live.is_empty() && rng.chance(1, 4) {
+                        // one of the two reaches the key by UPDATE: that key is not in its write set
+                        let from = *rng.pick(&live);
+                        ops.push(format!(
+                            "s1 begin ; s2 begin ; s1 upd u k set {} where v eq {} ; s2 ins u {} ; s1 {} ; db sel u ; s2 {} ; db sel u",
+                            k, 100 + from, c07_row(&sc, k), e1, e2
+                        ));
+                        extra.push("update_unique_col");
+                        extra.push("concurrent_key_update");
+                    } else {
+                        ops.push(format!(
+                            "s1 begin ; s2 begin ; s1 ins u {} ; s2 ins u {} ; s1 {} ; db sel u ; s2 {} ; db sel u",
+                            c07_row(&sc, k), c07_row(&sc, k), e1, e2
+                        ));
+                    }
                     extra.push("concurrent_same_key");
                 }
                 "reinsert_in_txn_rollback" if !live.is_empty() => {
@@ -1576,8 +1591,6 @@ fn gen_c07(rng: &mut Rng, out: &mut Vec<Case>) {
     // C07's feature → known-finding tag (the generic analysis of `finish` does not know the index features)
     let kf = if extra.contains(&"reinsert_deleted_unique_key") {
         Some("kf:reinsert_deleted_unique_key")
-    } else if extra.contains(&"concurrent_same_key") {
-        Some("kf:concurrent_same_key")
     } else if extra.contains(&"update_unique_col") {
         Some("kf:update_unique_col")
     } else {
@@ -1586,7 +1599,6 @@ fn gen_c07(rng: &mut Rng, out: &mut Vec<Case>) {
     c.tags.retain(|t| t != "clean" && !t.starts_with("kf:") && t != "kf2" && t != "nt");
     match kf {
         Some(k) => c.tags.push(k.to_string()),
-        None if extra.contains(&"failed_stmt_partial") => c.tags.push("kf:failed_stmt_partial".to_string()),
         // autocommit updates of a non-key column with no transaction open behave as specified
         None => c.tags.push("clean".to_string()),
     }
@@ -1600,6 +1612,66 @@ fn gen_c07(rng: &mut Rng, out: &mut Vec<Case>) {
     out.push(c);
 }
 
+/// A table with TWO unique keys (two UNIQUE columns at CREATE TABLE, two CREATE UNIQUE INDEX, or a multi-column UNIQUE
+/// plus a unique index), rows that carry NULL in one key and a value in the other — several, NULL on either side: the
+/// order in which the code visits the indexes of a table changes from statement to statement — and then, for every
+/// such row, an INSERT that repeats its non-NULL key value (must be refused: a NULL in one key must not keep the row
+/// out of the other key's index).  Clean region.
+fn gen_c07_two_keys(rng: &mut Rng, out: &mut Vec<Case>) {
+    // columns a, b (keys), v (row marker, v = 100 + n)
+    let (setup_tab, cons, tag): (&str, &[&str], &str) = match rng.below(4) {
+        0 => ("tab=u(a:big*,b:int*,v:int)", &[], "two_unique_cols"),
+        1 => ("tab=u(a:big,b:int,v:int)", &["con=u:@a", "con=u:@b"], "two_unique_indexes"),
+        2 => ("tab=u(a:big*,b:int,v:int)", &["con=u:b"], "unique_col_and_alter_unique"),
+        _ => ("tab=u(a:big,b:int,v:int)", &["con=u:a", "con=u:@b"], "alter_unique_and_unique_index"),
+    };
+    let mut setup = setup_tab.to_string();
+    for c in cons {
+        setup.push_str(&format!(" {}", c));
+    }
+    let mut ops: Vec<String> = Vec::new();
+    let n_rows = rng.range(4, 8);
+    // (n, null_in_a): row n has a = n (or NULL), b = 50 + n (or NULL)
+    let mut rows: Vec<(i64, u64)> = Vec::new();
+    for n in 1..=n_rows {
+        let shape = rng.below(5); // 0,1: NULL in a   2,3: NULL in b   4: no NULL
+        let a = if shape <= 1 { "null".to_string() } else { n.to_string() };
+        let b = if shape == 2 || shape == 3 { "null".to_string() } else { (50 + n).to_string() };
+        let stmt = format!("ins u {} {} {}", a, b, 100 + n);
+        match rng.below(4) {
+            0 => ops.push(format!("s1 begin ; s1 {} ; s1 commit", stmt)),
+            _ => ops.push(format!("db {}", stmt)),
+        }
+        rows.push((n, shape));
+    }
+    ops.push("db sel u".into());
+    // repeat every non-NULL key value once, the other key fresh or NULL
+    let mut fresh = 20;
+    for (n, shape) in &rows {
+        fresh += 1;
+        if *shape > 1 {
+            // a = n is taken
+            let other = if rng.chance(1, 2) { "null".to_string() } else { (70 + fresh).to_string() };
+            ops.push(format!("db ins u {} {} {}", n, other, 200 + fresh));
+        }
+        if *shape <= 1 || *shape == 4 {
+            let other = if rng.chance(1, 2) { "null".to_string() } else { fresh.to_string() };
+            ops.push(format!("db ins u {} {} {}", other, 50 + n, 300 + fresh));
+        }
+    }
+    ops.push("db sel u".into());
+    if rng.chance(1, 3) {
+        // a row whose keys are both NULL twice, and a fresh row: accepted
+        ops.push("db ins u null null 401 ; db ins u null null 402 ; db ins u 41 91 403 ; db sel u".into());
+    }
+    let line = format!("hist {} | {}", setup, ops.join(" ; "));
+    let mut c = finish(line, Family::Clean, &["c07", "two_keys", tag, "null_in_key", "dup_key_insert"]);
+    c.tags.retain(|t| t != "clean" && !t.starts_with("kf:") && t != "kf2" && t != "nt");
+    c.tags.push("clean".to_string());
+    c.tags.push("nt".to_string());
+    out.push(c);
+}
+
 impl Engine for HistEngine {
     fn gen_cases(&self, rng: &mut Rng, tier: Tier) -> Vec<Case> {
         let mut out = Vec::new();
@@ -1607,6 +1679,9 @@ impl Engine for HistEngine {
         if std::env::var("AXH_PROP").as_deref() == Ok("C07") {
             for _ in 0..(if quick { 1500 } else { 15000 }) {
                 gen_c07(rng, &mut out);
+            }
+            for _ in 0..(if quick { 60 } else { 600 }) {
+                gen_c07_two_keys(rng, &mut out);
             }
             return out;
         }
